@@ -2462,9 +2462,16 @@ impl XmlElement {
             .find(|v| v.as_attribute().unwrap().borrow().local_name() == name)
             .cloned()
         {
-            self.attributes
-                .retain(|v| v.as_attribute().unwrap().borrow().local_name() != name);
-            v.set_parent_id(None);
+            // Attributes are addressed by local part: every attribute of that local part goes, and
+            // none of them belongs to the element any longer.
+            let (removed, kept): (Vec<_>, Vec<_>) = self
+                .attributes
+                .drain(..)
+                .partition(|v| v.as_attribute().unwrap().borrow().local_name() == name);
+            self.attributes = kept;
+            for attribute in removed.iter() {
+                attribute.set_parent_id(None);
+            }
             self.context.invalidate_order();
             Some(v)
         } else {
